@@ -35,4 +35,5 @@ def tasks(tier, seed=0):
            task(M, "ob_split", "frontend._split_constraints/partition", ["C15", "C12"], via="_split_constraints", tier=tier),
            task(M, "ob_mc_combine", "mixin.ModelCacheMixin.combine/cached-models-valid", ["C15", "C11", "C26"], tier=tier),
            task(M, "ob_mc_split", "mixin.ModelCacheMixin.split/cached-models-valid", ["C15", "C11"], tier=tier)]
+    out.append(task("vf.contracts.canaries", "ob_canaries", "harness.canaries/wrong-methods-are-noticed", ["C03", "C11", "C12", "C13", "C15"], tier=tier))
     return out + _rtc.rtc_tasks("C15", tier, seed)
